@@ -343,6 +343,81 @@ def _pinned(job, seed):
     return [{}]  # one validation run per configuration: model output vs the real library's output
 
 
+_CHILD = r"""
+import sys, json, warnings, hashlib
+warnings.filterwarnings("ignore")
+sys.path.insert(0, sys.argv[1])
+if len(sys.argv) > 3 and sys.argv[3]:
+    sys.path.insert(0, sys.argv[3])
+from props import c04
+from maze_dataset import MazeDataset
+out = []
+for job in json.loads(sys.argv[2]):
+    try:
+        ds = MazeDataset.from_config(c04._cfg(job), load_local=False, save_local=False, do_download=False)
+        out.append(hashlib.sha256(json.dumps(c04._dump(ds)).encode()).hexdigest())
+    except ValueError as e:
+        out.append("ValueError")
+print("RESULT" + json.dumps(out))
+"""
+
+
+def _xproc_problem(job):
+    """the same configurations generated in fresh interpreter processes (different PYTHONHASHSEED, no history) and here after a history"""
+    import hashlib
+    import os
+    import subprocess
+    import sys
+
+    from maze_dataset import MazeDataset
+
+    verif = os.path.dirname(os.path.dirname(os.path.abspath(__file__)))
+    cfgs = job["cfgs"]
+    here = []
+    import maze_dataset.dataset.maze_dataset as md
+    from props.c03 import _mp_stub
+
+    old_mp = md.multiprocessing
+    md.multiprocessing = _mp_stub([])  # the check runs inside a pool worker: make the library see a main process (serial generation)
+    try:
+        _prehistory(1)
+        for j in cfgs:
+            try:
+                ds = MazeDataset.from_config(_cfg(j), load_local=False, save_local=False, do_download=False)
+                here.append(hashlib.sha256(json.dumps(_dump(ds)).encode()).hexdigest())
+            except ValueError:
+                here.append("ValueError")
+    finally:
+        md.multiprocessing = old_mp
+    for hs in job["hashseeds"]:
+        p = subprocess.run([sys.executable, "-W", "ignore", "-c", _CHILD, verif, json.dumps(cfgs), os.environ.get("VERIF_REPO", "")],
+                           env=dict(os.environ, PYTHONHASHSEED=str(hs), VERIF_IN_VENV="1"), capture_output=True, text=True, timeout=900)
+        line = [l for l in p.stdout.splitlines() if l.startswith("RESULT")]
+        if not line:
+            raise Inconclusive(f"child interpreter failed: {p.stderr[-300:]}")
+        there = json.loads(line[0][6:])
+        for k, (a, b) in enumerate(zip(here, there)):
+            if a != b:
+                j = cfgs[k]
+                return (f"generation-differs-between-processes | {j['gen']}{j['kwargs']} grid_n={j['n']} n_mazes={j['n_mazes']} seed={j['seed']} endpoint={j['endpoint']} "
+                        f"filters={j['filters']}: a fresh interpreter (PYTHONHASHSEED={hs}) generates a different dataset than this process after other work")
+    return None
+
+
+def _run_xproc(job):
+    def run(ctx, pinned=None):
+        msg = _xproc_problem(job)
+        ctx.inputs["dummy"] = z3.IntVal(0)
+        ctx.notes["finding"] = msg
+        return [("the same configuration yields the same dataset in fresh interpreter processes with other hash seeds", z3.BoolVal(msg is None))]
+
+    return run
+
+
+def _replay_xproc(job, inputs, notes):
+    return _xproc_problem(job)
+
+
 def jobs(tier, seed):
     q = tier == "quick"
     out = []
@@ -363,6 +438,9 @@ def jobs(tier, seed):
                     k += 1
                     out.append(dict(h="pure", gen=gen, kwargs=kwargs, seed=s, n=n, n_mazes=3 if n >= 3 else 2, endpoint=ep, filters=fl))
     out.append(dict(h="pure", gen="gen_dfs", kwargs={}, seed=2 ** 31 - 1, n=4, n_mazes=3, endpoint={}, filters=[]))
+    pick = [j for j in out if j["seed"] in (0, 42)][:: (4 if q else 2)]
+    out.append(dict(h="xproc", cfgs=[{k: v for k, v in j.items() if k != "h"} for j in pick], hashseeds=[1, 4242] if q else [0, 1, 7, 4242], max_seconds=3000))
+    out.sort(key=lambda j: 0 if j["h"] == "xproc" else 1)
     out[0]["twin"] = True
     return out
 
@@ -373,7 +451,8 @@ def warmup():
     MazeDatasetConfig(name="warm", grid_n=2, n_mazes=1)
 
 
-HARNESSES = {"pure": dict(run=_run_pure, replay=_replay_pure, real_sig=_real_sig, pinned=_pinned, patch=dict(np_modules=[], stub_ascii=False))}
+HARNESSES = {"pure": dict(run=_run_pure, replay=_replay_pure, real_sig=_real_sig, pinned=_pinned, patch=dict(np_modules=[], stub_ascii=False)),
+             "xproc": dict(run=_run_xproc, replay=_replay_xproc, patch=dict(np_modules=[], stub_ascii=False), validate_every=0)}
 
 MANIFEST = dict(
     technique="symbolic execution of the real code under a symbolic RNG-state model (seeded RNGs delegate to the real generators, a draw from an "
@@ -388,11 +467,11 @@ META = dict(
     bounds=dict(quick="initial state of python random / numpy global RNG / torch RNG / numpy_rng arbitrary (symbolic), after a fixed library-call history that includes failed from_config / generate calls; 5 generators x kwargs grid x seeds {0,1,42} at grid_n 3, "
                       "n_mazes 3, endpoint options and filter lists of length <= 2 cycled over the grid",
                 thorough="grid_n in {2,3,4}"),
-    degenerate=dict(pure="on code where the property holds every draw is made from a freshly seeded RNG, so the run is a single concrete path; the symbolic initial RNG state only "
+    degenerate=dict(xproc="concrete differential between interpreter processes", pure="on code where the property holds every draw is made from a freshly seeded RNG, so the run is a single concrete path; the symbolic initial RNG state only "
                          "matters on code that reads it (then the first such draw is the counterexample)"),
     stubs=["multiprocessing.current_process in maze_dataset.py -> main-process identity (the check runs inside a pool worker)", "random / np.random / torch (manual_seed, random.seed, sampling functions) / numpy_rng in muutils.mlutils, generators.py, lattice_maze.py, maze_dataset.py, dataset.py, "
            "token_utils.py, maze_tokenizer.py -> RNG-state model: Seeded(s) delegates to the real generator for s (random.Random / np.random.RandomState), Unseeded reports the draw"],
-    outside=["a second interpreter process and PYTHONHASHSEED (process-level; not expressible as a symbolic input)", "parallel generation", "seed=None (documented as 'pick a new random seed')",
+    outside=["other interpreter processes / PYTHONHASHSEED values are not a symbolic input: they are covered by a concrete differential only (a sample of the configurations generated in fresh interpreters with 2 hash seeds)", "parallel generation", "seed=None (documented as 'pick a new random seed')",
              "the on-disk cache (C11)"],
     assumptions=["np.random.RandomState(s) reproduces the global numpy RNG after np.random.seed(s); random.Random(s) reproduces random.seed(s) (validated per run: model output == real output)"],
 )
